@@ -17,6 +17,8 @@ the exact one, the remainder may round up to the full rounded length, and `min +
                           value, and round-to-nearest never crosses a representable value (`nearest_ge`)
   * `wrap_f32_le_max`     `result ≤ max`: the cap
   * `wrap_f32_in_range`   both
+  * `wrap_f32_bounded`    the unconditional form: for finite arguments of magnitude ≤ 2^125 the result IS finite
+                          and in `[min, max]` (no hypothesis on intermediate values)
   * `wrap_old_above_max`  sharpness: without the cap the upper bound FAILS on the witness `c127beb2 c127beb1 4132acbe`
   * `wrap_f32_can_equal_max`  the interval cannot be made half-open in f32: the same witness now returns exactly `max`
 
@@ -112,6 +114,41 @@ theorem wrap_f32_le_cmp {a lo hi : UInt32} {av lv hv d L v : ℚ}
   obtain ⟨h1, h2⟩ := wrap_f32_in_range ha hl hh hlt hd hL hres
   rw [lt_finite hres hl, lt_finite hh hres]
   constructor <;> simp <;> linarith
+
+/-! ### unconditional form for bounded arguments -/
+
+theorem rep_two_pow_126 : Rep ((2:ℚ) ^ 126) :=
+  ⟨2 ^ 22, 104, by norm_num, by norm_num, by norm_num, by rw [abs_of_pos (by positivity)]; norm_num⟩
+
+theorem rep_two_pow_127 : Rep ((2:ℚ) ^ 127) :=
+  ⟨2 ^ 23, 104, by norm_num, by norm_num, by norm_num, by rw [abs_of_pos (by positivity)]; norm_num⟩
+
+/-- **wrap_f32_bounded.** No finiteness hypotheses left: for finite `self`, `min < max` of magnitude at most
+`2^125` (4·10^37; angles are a few radians) the f32 result of `Angle::wrap` IS finite and lies in `[min, max]`. -/
+theorem wrap_f32_bounded {a lo hi : UInt32} {av lv hv : ℚ}
+    (ha : toRat? a = some av) (hl : toRat? lo = some lv) (hh : toRat? hi = some hv) (hlt : lv < hv)
+    (ba : |av| ≤ (2:ℚ) ^ 125) (bl : |lv| ≤ (2:ℚ) ^ 125) (bh : |hv| ≤ (2:ℚ) ^ 125) :
+    ∃ v : ℚ, toRat? (wrapStd a lo hi) = some v ∧ lv ≤ v ∧ v ≤ hv := by
+  rw [abs_le] at ba bl bh
+  have e126 : (2:ℚ) ^ 126 = 2 * (2:ℚ) ^ 125 := by norm_num
+  have e127 : (2:ℚ) ^ 127 = 4 * (2:ℚ) ^ 125 := by norm_num
+  have p125 : (0:ℚ) < (2:ℚ) ^ 125 := by positivity
+  obtain ⟨d, hd, -, -⟩ := sub_between ha hl rep_two_pow_126.neg rep_two_pow_126
+    (by rw [e126]; linarith [ba.1, bl.2]) (by rw [e126]; linarith [ba.2, bl.1])
+  obtain ⟨L, hL, -, hL2⟩ := sub_between hh hl rep_two_pow_126.neg rep_two_pow_126
+    (by rw [e126]; linarith [bh.1, bl.2]) (by rw [e126]; linarith [bh.2, bl.1])
+  have hLpos := width_pos hl hh hlt hL
+  obtain ⟨ρ, r, -, -, -, hr, hr0, hrL, -, -⟩ := C20.fallback_rem_euclid_spec hd hL hLpos.ne'
+  rw [C20.fallback_rem_euclid_eq_std_algorithm] at hr
+  rw [abs_of_pos hLpos] at hrL
+  obtain ⟨w, hw, -, -⟩ := add_between hl hr rep_two_pow_127.neg rep_two_pow_127
+    (by rw [e127]; linarith [bl.1]) (by rw [e126] at hL2; rw [e127]; linarith [bl.2])
+  have hw' : toRat? (wrapStdOld a lo hi) = some w := hw
+  by_cases hc : (lt lo hi && lt hi (wrapStdOld a lo hi)) = true
+  · have hres : toRat? (wrapStd a lo hi) = some hv := by rw [wrapStd_eq, if_pos hc, hh]
+    exact ⟨hv, hres, wrap_f32_in_range ha hl hh hlt hd hL hres⟩
+  · have hres : toRat? (wrapStd a lo hi) = some w := by rw [wrapStd_eq, if_neg hc, hw']
+    exact ⟨w, hres, wrap_f32_in_range ha hl hh hlt hd hL hres⟩
 
 /-! ### sharpness and non-vacuity (bit patterns of the corpus witness `corpus/C18/wrap-above-max.case`) -/
 
